@@ -5,7 +5,7 @@ import ast
 from fractions import Fraction
 
 from ..absint import ClassRef, FuncV, Interp, ObjV, VecV
-from ..forms import Const, DictV, Form, SliceV, TupleV
+from ..forms import Const, DictV, Form, SliceV, TupleV, atom_children, vkey
 from ..rules import S, check_late_binding
 from ..srcmodel import src_of
 
@@ -362,6 +362,66 @@ FIELD_TYPES = {"mu0": LEVEL_T, "mu1": LEVEL_T, "threshold": LEVEL_T, "y_left": L
                "t_left": NUM, "t_right": NUM, "t_opt": NUM, "t_dist": NUM, "i": NUM}
 
 
+_SIZE_FNS = {"siglen", "len", "size", "shape", "numpy.size", "numpy.shape"}
+_SORT_FNS = {"sort", "sorted", "numpy.sort", "partition", "numpy.partition"}
+_ARGSORT_FNS = {"argsort", "numpy.argsort", "argpartition", "numpy.argpartition"}
+
+
+def _value_dependent(v):
+    """does the value depend on the sample VALUES (occurrences under len/size do not count)?"""
+    if isinstance(v, SliceV):
+        return any(_value_dependent(x) for x in (v.lo, v.hi, v.step))
+    if isinstance(v, TupleV):
+        return any(_value_dependent(x) for x in v.items)
+    if not isinstance(v, Form):
+        return False
+    for m in v.terms:
+        for a, _e in m:
+            if a[0] == "sym" and a[1] in ("input.signal", "input.noise", "input"):
+                return True
+            if a[0] == "fn" and a[1] in _SIZE_FNS:
+                continue
+            if a[0] == "attr" and a[2] in ("size", "shape", "ndim"):
+                continue
+            if a[0] == "meth" and a[2] in ("__len__",):
+                continue
+            if a[0] in ("opaque", "loop"):
+                return True
+            if any(_value_dependent(c) for c in atom_children(a)):
+                return True
+    return False
+
+
+def _head(v):
+    a = v.single_atom() if isinstance(v, Form) else None
+    while a is not None and a[0] == "fn" and a[1] in ("real", "asarray", "numpy.asarray", "array", "ravel", "flatten") and a[2]:
+        v = a[2][0]
+        a = v.single_atom() if isinstance(v, Form) else None
+    return a
+
+
+def _rank_split(data):
+    """repr of the cut if `data` is sort(X)[p:q] / X[argsort(X)[p:q]] with p, q independent of the sample values, else None"""
+    a = _head(data)
+    if a is None or a[0] != "idx":
+        return None
+    base, index = a[1], a[2]
+    hb = _head(base)
+    if isinstance(index, SliceV):
+        sorted_base = hb is not None and ((hb[0] == "fn" and hb[1] in _SORT_FNS) or (hb[0] == "meth" and hb[2] in ("sort",)))
+        bounded = not all(isinstance(x, Const) and x.v is None for x in (index.lo, index.hi))
+        if sorted_base and bounded and not _value_dependent(index):
+            return short(index, 80)
+        return None
+    hi_ = _head(index)
+    if hi_ is not None and hi_[0] == "idx" and isinstance(hi_[2], SliceV):
+        hbb = _head(hi_[1])
+        if hbb is not None and hbb[0] == "fn" and hbb[1] in _ARGSORT_FNS and not _value_dependent(hi_[2]) \
+                and not all(isinstance(x, Const) and x.v is None for x in (hi_[2].lo, hi_[2].hi)):
+            return short(hi_[2], 80)
+    return None
+
+
 def run(ctx):
     pkg = ctx.pkg
     fi = pkg.func("devices.GET_EYE")
@@ -426,6 +486,26 @@ def run(ctx):
                     bad_start.append(lo)
                 ctx.check("C17.3", not bad_start, fi, rets[0].node, f"GET_EYE [{case}]: record trimmed at its end / by whole slots only ({len(starts)} start offsets)", "sample 0 stays a slot boundary",
                           f"the waveform is cut from sample {bad_start[0]!r} on, which is not a whole number of slots: the folded eye is shifted by a fraction of a slot against the time axis (crossings and sampling instant misplaced for records that are not a whole number of eye periods)"[:600] if bad_start else "")
+            # C17.4 the two level populations are separated by VALUE (a level-typed threshold between the clusters), never by RANK:
+            # a cut of the sorted samples at a position computed from the record length alone assumes a fixed proportion of ones
+            # and zeros, and the statement quantifies over every bit pattern with both symbols present
+            pops = []
+            for name in ("top_int", "bot_int", "mu0", "mu1", "s0", "s1"):
+                v_ = eye.fields.get(name)
+                if isinstance(v_, Form):
+                    for a in v_.atoms():
+                        if a[0] == "fn" and a[1].split(".")[-1] == "shortest_int" and a[2]:
+                            pops.append((name, a[2][0]))
+            seen_p = set()
+            for name, data in pops:
+                kk = vkey(data)
+                if kk in seen_p:
+                    continue
+                seen_p.add(kk)
+                rk = _rank_split(data)
+                ctx.check("C17.4", rk is None, fi, rets[0].node, f"GET_EYE [{case}]: population given to shortest_int ({name}) selected by value", "not a fixed-rank cut of the sorted samples",
+                          f"the population is the sorted record cut at position {rk}: a fixed rank that does not depend on the sample values, so for a pattern with unequal numbers "
+                          "of ones and zeros samples of the majority level land in the other population and mu0/mu1/s0/s1 are biased beyond the stated tolerances" if rk else "")
             # every comparison / sum reachable from the other stored fields as well
             for name in ("y_top", "y_bot", "y", "t", "top_int", "bot_int"):
                 if name in eye.fields:
@@ -451,3 +531,4 @@ def run(ctx):
     check_late_binding(ctx, "C17.2", ["devices.GET_EYE"])
     ctx.require_min("C17.1", 40)
     ctx.require_min("C17.3", 4)
+    ctx.require_min("C17.4", 8)
